@@ -46,6 +46,7 @@ def run(db, chk) -> None:
     _validation(db, chk, m)
     _api(db, chk, m)
     _window(db, chk, m)
+    _per_thread_state(db, chk, m)
     _instance_range(db, chk, m)
 
 
@@ -662,6 +663,40 @@ def _instance_range(db, chk, m):
         chk.ob(rule, f"instance_id={label}: the window spans annotation instances [{want[0]}, {want[1]}) of the selected annotation", (got == {want}) if got else None, where,
                found=sorted(got, key=repr), accepted=[want], why="an exclusive upper bound drops the last requested instance: its events are missing from the graph; (k, k) selects nothing")
     chk.floor(rule, 5)
+
+
+def _per_thread_state(db, chk, m, rule="C08.R12-per-thread-state"):
+    """the walk over a thread's call stack starts from a fresh traversal state: no state object that the per-thread code writes to is created once, in front of the loop
+    over the threads, and handed to every thread's walk"""
+    f = m.func("CPGraph._construct_graph_from_call_stacks")
+    where = m.loc(f)
+    loops = [n for n in ast.walk(f) if isinstance(n, ast.For)]
+    shared = []
+    n_calls = 0
+    for lp in loops:
+        inside = {id(n) for n in ast.walk(lp)}
+        for c in [n for n in ast.walk(lp) if isinstance(n, ast.Call) and isinstance(n.func, ast.Attribute) and isinstance(n.func.value, ast.Name) and n.func.value.id == "self"]:
+            callee = m.functions.get(f"CPGraph.{c.func.attr}")
+            if callee is None:
+                continue
+            n_calls += 1
+            unit = H.with_private_callees(m, callee)
+            for a in list(c.args) + [k.value for k in c.keywords]:
+                if not isinstance(a, ast.Name):
+                    continue
+                defs = [(t_, v_, s_) for t_, v_, s_ in H.assignments(f, nested=False) if isinstance(t_, ast.Name) and t_.id == a.id]
+                for t_, v_, s_ in defs:
+                    if id(s_) in inside or not (isinstance(v_, ast.Call) and H.name_id(v_.func) in m.classes):
+                        continue
+                    cdef = m.classes[H.name_id(v_.func)]
+                    fields = {st.target.id for st in cdef.body if isinstance(st, ast.AnnAssign) and isinstance(st.target, ast.Name)} | \
+                        {t2.attr for fn_ in cdef.body if isinstance(fn_, ast.FunctionDef) for t2 in ast.walk(fn_) if isinstance(t2, ast.Attribute) and isinstance(t2.ctx, ast.Store) and isinstance(t2.value, ast.Name) and t2.value.id == "self"}
+                    written = sorted({n.attr for g_ in unit for n in ast.walk(g_) if isinstance(n, ast.Attribute) and isinstance(n.ctx, ast.Store) and n.attr in fields and not (isinstance(n.value, ast.Name) and n.value.id == "self")})
+                    if written:
+                        shared.append(f"{a.id} = {ast.unparse(v_)} created once at line {s_.lineno}, handed to self.{c.func.attr}(...) for every thread; the walk writes {written}")
+    chk.ob(rule, "every thread's walk starts from a fresh traversal state (no state object written by the walk is created once in front of the loop over the threads)", not shared if n_calls else None, where,
+           found=shared or f"{n_calls} per-thread call(s), none receives a shared mutable state object", accepted="state created per thread (inside the per-thread function or the loop)",
+           why="what the walk remembers of the previous thread (its last top-level operator) becomes the source of a DEPENDENCY edge into the next thread: an edge between threads, backward in time, possibly a cycle")
 
 
 def _window(db, chk, m):
